@@ -414,8 +414,14 @@ def run_shard(desc, ctx):
         judge(ctx, h, res)
 
 
+_BASE_CACHE = None
+
+
 def replay(data, ctx):
-    base = fresh_baselines()
+    global _BASE_CACHE
+    if _BASE_CACHE is None:
+        _BASE_CACHE = fresh_baselines()
+    base = _BASE_CACHE
     h = data["case"]
     if "target" in h:
         import rtflite  # noqa
